@@ -1,5 +1,6 @@
 import Driver.StoreCmd
 import Driver.McRun
+import Driver.SimCmd
 open Driver
 
 partial def storeLoop (h : IO.FS.Stream) (out : IO.FS.Stream) (st : StoreSt) : IO Unit := do
@@ -16,10 +17,18 @@ partial def mcLoop (h : IO.FS.Stream) (out : IO.FS.Stream) (st : McSt) : IO Unit
   for o in outs do out.putStrLn o
   mcLoop h out st'
 
+partial def simLoop (h : IO.FS.Stream) (out : IO.FS.Stream) (st : SimSt) : IO Unit := do
+  let line ← h.getLine
+  if line.isEmpty then return ()
+  let (st', outs) := simLine st line
+  for o in outs do out.putStrLn o
+  simLoop h out st'
+
 def main (args : List String) : IO UInt32 := do
   let stdin ← IO.getStdin
   let stdout ← IO.getStdout
   match args with
   | ["store"] => storeLoop stdin stdout {}; return 0
   | ["mc"] => mcLoop stdin stdout {}; return 0
+  | ["sim"] => simLoop stdin stdout {}; return 0
   | _ => IO.eprintln "usage: asdriver store|mc|sim|pred|..."; return 2
